@@ -191,7 +191,7 @@ class Ctx:
                 return True, ""
             open(os.path.join(d, "extract.v"), "w").write(
                 "Require Import Relic.Base.Prelude Relic.Base.Val Relic.%s.\nRequire Extraction. Require Import ExtrOcamlBasic.\n"
-                "Definition run := %s.\nExtraction \"model.ml\" run z_push_digit z_divmod10.\n" % (module, fn))
+                "Definition verif_entry := Relic.%s.%s.\nExtraction \"model.ml\" verif_entry z_push_digit z_divmod10.\n" % (module, module, fn))
             rc, out, err, _ = run(["coqc", "-Q", COQ, "Relic", "extract.v"], cwd=d, timeout=600)
             if rc != 0:
                 return False, out + err
@@ -228,11 +228,11 @@ class Ctx:
         return res
 
     # ------------------------------------------------------------ Go driver
-    def build_drv(self):
+    def build_drv(self, extra_flags=()):
         with Lock("build"):
             if not ALT:
                 shutil.copyfile(os.path.join(REPO, "go.sum"), os.path.join(HARNESS, "go.sum"))
-            rc, out, err, dt = run(["go", "build"] + MODFLAGS + ["-tags", "verif", "-o", self.drv_path(), "./cmd/drv-" + self.unit], cwd=HARNESS, env=GOENV, timeout=1200)
+            rc, out, err, dt = run(["go", "build"] + MODFLAGS + list(extra_flags) + ["-tags", "verif", "-o", self.drv_path(), "./cmd/drv-" + self.unit], cwd=HARNESS, env=GOENV, timeout=1200)
         if rc != 0:
             return False, err
         return True, ""
@@ -247,7 +247,7 @@ class Ctx:
         return rc, out, err
 
     # ------------------------------------------------------------ standard skeleton
-    def prepare(self, gen_names, dirs, model_module=None, extra_targets=()):
+    def prepare(self, gen_names, dirs, model_module=None, extra_targets=(), drv_flags=()):
         """srcgen + Coq build of <dir>/Properties.vo and <dir>/Run.vo for each dir + harness build + model extraction.
         Returns a dict describing what is intact."""
         pid = self.pid
@@ -273,7 +273,7 @@ class Ctx:
         st = {"broken": broken, "built": built, "hygiene": hyg, "theorems": thms, "discharged": discharged,
               "proofs_ok": discharged == len(thms) and not hyg and not broken and len(thms) > 0,
               "props": props, "model_ok": False, "harness_ok": False}
-        ok, err = self.build_drv()
+        ok, err = self.build_drv(drv_flags)
         st["harness_ok"] = ok
         if not ok:
             self.violation(pid + ":harness-build:" + self.unit, "harness does not build against /repo: " + err[-400:], {"stderr": err[-3000:]}, False)
